@@ -28,6 +28,7 @@ DEF_NAMES = ("f", "g", "h", "v", "w", "_pf", "_pv", "__dv__")
 CLS_NAMES = ("K", "L", "M", "_B", "_Q")
 MEM_NAMES = ("m", "n", "x", "y", "_pm", "__cp", "__call__")
 NEST_NAMES = ("N", "_H")
+CIMP_NAMES = ("ci1", "ci2")  # local names of imports written inside a class body
 ALIAS_NAMES = ("a1", "a2", "_a3", "s1", "s2")
 FUNC_SIGS = ("", "a", "a, b=1", "a, *args", "a, **kw", "*, k=1", "a, /, b=2", "a, b=1, *, k=2")
 METH_SIGS = ("self", "self, a", "self, a=1", "self, *args, **kw", "self, a, *, k=1")
@@ -203,16 +204,28 @@ def build(raw: dict) -> dict:
             foreign = sorted(c for c in rank if rank[c] < rank[me] and pkg.module_of(c) != p)
             for rb in raw_bases:
                 name = None
-                if foreign and (not cands or rb % 2):
+                # a further base with the SAME short name as a base already chosen, from another module
+                # (class Client(sync.Transport, aio.Transport)): preferred when one exists
+                shorts = set()
+                for b in m["bases"]:
+                    fin = pkg.final(f"{p}.{b}")
+                    if fin is not None:
+                        shorts.add((fin.rsplit(".", 1)[1], fin))
+                twins = [c for c in foreign if any(c.rsplit(".", 1)[1] == sn and c != fin for sn, fin in shorts)]
+                if twins or (foreign and (not cands or rb % 2)):
                     # derive from a class of another module: import it (not exported) unless it is already in scope
-                    fc = foreign[(rb // 2) % len(foreign)]
+                    pool_ = twins or foreign
+                    fc = pool_[(rb // 2) % len(pool_)]
                     fmod, fname = fc.rsplit(".", 1)
                     have = [o["name"] for o in mods[p]["body"] if o["k"] == "imp" and o["src"] == fmod and o["tgt"] == fname]
+                    local = fname
+                    if any(o["name"] == fname for o in mods[p]["body"]) or f"{p}.{fname}" in pkg.ent:
+                        local = f"{fname}_{fmod.rsplit('.', 1)[-1].strip('_')}"  # from pk.b import K as K_b
                     if have:
                         name = have[0]
-                    elif all(o["name"] != fname for o in mods[p]["body"]) and f"{p}.{fname}" not in pkg.ent:
-                        mods[p]["body"].insert(0, {"k": "imp", "name": fname, "src": fmod, "tgt": fname})
-                        name = fname
+                    elif all(o["name"] != local for o in mods[p]["body"]) and f"{p}.{local}" not in pkg.ent:
+                        mods[p]["body"].insert(0, {"k": "imp", "name": local, "src": fmod, "tgt": fname})
+                        name = local
                 if name is None:
                     if not cands:
                         continue
@@ -293,6 +306,15 @@ def _concrete(rmem: dict, p: str, order: list[str], named: dict, children: dict)
                     seen.add(nm)
                     inner = class_body([x for x in rm.get("body", []) if x["k"] != "ncls"])
                     body.append({"k": "cls", "name": nm, "bases": [], "doc": 0, "body": inner})
+                continue
+            if rm["k"] == "cimp":
+                # import statement inside the class body: imported, hence not public (documented for class-level objects)
+                nm = CIMP_NAMES[rm["name"] % len(CIMP_NAMES)]
+                node = _concrete_import({"k": "imp", "name": None, "mod": rm.get("mod", 0), "pick": rm.get("pick", 0), "form": rm.get("form", "name")}, p, order, named)
+                if nm not in seen and node is not None:
+                    seen.add(nm)
+                    node["name"] = nm
+                    body.append(node)
                 continue
             nm = MEM_NAMES[rm["name"] % len(MEM_NAMES)]
             if nm in seen:
@@ -652,7 +674,7 @@ class Pkg:
                 sub = [x for x in self.kids[k]]
                 while sub:
                     x = sub.pop()
-                    if is_private_name(self.ent[x][1]["name"]):
+                    if is_private_name(self.ent[x][1]["name"]) or self.ent[x][0] == "imp":
                         continue
                     rel.add(x)
                     sub.extend(self.kids.get(x, ()))
@@ -741,6 +763,10 @@ class Frontier:
                 if is_private_name(name):
                     continue
                 own = owner.startswith(cont + ".") and owner.count(".") == cont.count(".") + 1
+                if pkg.ent[owner][0] == "imp" and (own or self.variant == "sure"):
+                    # imported inside a class body: not public there (documented).  Seen through a subclass the code no
+                    # longer knows it was imported (public), the documented table still says imported: ambiguous.
+                    continue
                 self._link(cont, name, owner, tag if own else "inherit")
 
     def _link(self, cont: str, name: str, child: str, tag: str) -> None:
@@ -842,7 +868,11 @@ class Editor:
             cands = [c for c in cands if self.loc_class(c) == "dead"]
             if not cands:
                 return None
-            if edit.get("hidden"):
+            if edit.get("focus") == "cimp":
+                # prefer imports written inside a class body (imported-but-not-exported at class level)
+                sub = [c for c in cands if self.opkg.ent[c][0] == "imp" and self.opkg.ent[self.opkg.ent[c][2]][0] == "cls"]
+                cands = sub or cands
+            elif edit.get("hidden"):
                 # prefer objects hidden by an empty __all__ (private whatever their name looks like)
                 sub = [c for c in cands if self.opkg.ent[self.opkg.module_of(c)][1]["all"] == [] and not is_private_name(c.rsplit(".", 1)[1])]
                 cands = sub or cands
@@ -1014,15 +1044,33 @@ class Editor:
             for e in self._entities(("cls",))
             if self._alive(e) and self.opkg.ent[e][1]["bases"] and ("rmbase", e) not in self.done
         ]
+        # classes deriving from two classes that share a short name (sync.Transport, aio.Transport) are rare: a base
+        # removal goes to a public one of them whenever the package has one, and removes one of the twins
+        twins = {c: self._twin_bases(c) for c in cands}
+        twin_only = False
+        if edit.get("where") != "dead":
+            sub = [c for c in cands if twins[c] and self.loc_class(c) in ("direct", "reexport")]
+            if sub:
+                cands, twin_only = sub, True
         e = self._pick(cands, edit)
         if e is None:
             return None
         node = self._node(e)
         i = edit.get("arg", 0) % len(node["bases"])
+        if twin_only and twins.get(e):
+            i = twins[e][(edit.get("arg", 0) // 2) % len(twins[e])]
         removed = node["bases"].pop(i)
         self.pinned.add(e)
         self.done.add(("rmbase", e))
         return {"ent": e, "loc": self.loc_class(e), "base": removed}
+
+    def _twin_bases(self, cls: str) -> list[int]:
+        """Indices of the bases of `cls` whose resolved class shares its short name with another base."""
+        pkg = self.opkg
+        mp = pkg.module_of(cls)
+        fins = [pkg.final(f"{mp}.{b}") for b in pkg.ent[cls][1]["bases"]]
+        shorts = [f.rsplit(".", 1)[1] if f else None for f in fins]
+        return [i for i, sn in enumerate(shorts) if sn is not None and shorts.count(sn) > 1]
 
     # private only: arbitrary signature change (compatible only because the function is not part of the API)
     def _op_chsig(self, edit):
